@@ -454,29 +454,6 @@ func c02Main(r *run.Runner) {
 		}
 		relCheck(w, get(w), "C02", p, src, dbs, nil)
 	})
-	var n2 int64
-	{
-		n2 = forEachSequence(r, "operator-sequences-reduced", d+1, c02Variants(true), func(w *run.Worker, p *gen.Pipeline, src string) {
-			if len(p.Ops) == d+1 {
-				relCheck(w, get(w), "C02", p, src, c02DBs(2), nil)
-			}
-		})
-	}
-	// deep and narrow: every sequence of d+2 operators over one or two canonical variants per operator kind
-	canonicalOnly = true
-	deep := c02Variants(true)
-	canonicalOnly = false
-	var deepDBs []rel.DB
-	for i, db := range small {
-		if i%2 == 0 || r.Thorough() {
-			deepDBs = append(deepDBs, db)
-		}
-	}
-	n3 := forEachSequence(r, "operator-sequences-deep", d+2, deep, func(w *run.Worker, p *gen.Pipeline, src string) {
-		if len(p.Ops) >= d+1 {
-			relCheck(w, get(w), "C02", p, src, deepDBs, nil)
-		}
-	})
 	// every spelling of a sort term (direction x nulls clause, defaults included) on two keys, with and without
 	// operators before and after; every spelling of the operators that have two keywords
 	var forms []string
@@ -543,6 +520,29 @@ func c02Main(r *run.Runner) {
 	}
 	nw := c02Wide(r, get, wideDBs)
 	r.Extra["wide"] = map[string]any{"programs": nw, "sizes": wideSizes(r.Thorough()), "databases": len(wideDBs)}
+	var n2 int64
+	{
+		n2 = forEachSequence(r, "operator-sequences-reduced", d+1, c02Variants(true), func(w *run.Worker, p *gen.Pipeline, src string) {
+			if len(p.Ops) == d+1 {
+				relCheck(w, get(w), "C02", p, src, c02DBs(2), nil)
+			}
+		})
+	}
+	// deep and narrow: every sequence of d+2 operators over one or two canonical variants per operator kind
+	canonicalOnly = true
+	deep := c02Variants(true)
+	canonicalOnly = false
+	var deepDBs []rel.DB
+	for i, db := range small {
+		if i%2 == 0 || r.Thorough() {
+			deepDBs = append(deepDBs, db)
+		}
+	}
+	n3 := forEachSequence(r, "operator-sequences-deep", d+2, deep, func(w *run.Worker, p *gen.Pipeline, src string) {
+		if len(p.Ops) >= d+1 {
+			relCheck(w, get(w), "C02", p, src, deepDBs, nil)
+		}
+	})
 	r.Extra["deep"] = map[string]any{"depth": d + 2, "variants": len(deep), "sequences": n3, "databases": len(deepDBs)}
 	r.Extra["bounds"] = map[string]any{"depth": d, "variants": len(c02Variants(false)), "sequences": n, "databases": len(dbs), "max_rows": m,
 		"reduced_depth": d + 1, "reduced_variants": len(c02Variants(true)), "reduced_sequences": n2}
